@@ -22,7 +22,7 @@ def run(seed):
             if p not in claimed:
                 res[p]=("UNCLAIMED",[]); continue
             out=subprocess.run(["bin/gmarslint","-prop",p,"-root",d,"-evidence",d+"/.ev","-known","known_findings.json"],capture_output=True,text=True)
-            rules=sorted(set(re.findall(r"^\S+: \[([A-Z]+\.[a-zA-Z0-9]+|ROLES|NI|VACUITY|BOUNDS)\]",out.stdout,re.M)))
+            rules=sorted(set(re.findall(r"^\S+: \[([A-Za-z0-9.]+)\]",out.stdout,re.M)))
             res[p]=("CAUGHT" if out.returncode==1 and "VIOLATION property="+p in out.stdout else ("ERROR" if out.returncode not in (0,1) else "MISSED"),rules)
         return seed,prop,res[prop][0],res[prop][1],res
     finally:
